@@ -28,7 +28,8 @@ Definition ParseByteRange (byteRange : bytes) (contentLength : Z) : brres :=
   else
     let b := skipn (length strBytes) b in
     match b with
-    | 61%N :: b =>
+    | c :: b =>
+        if negb (c =? 61)%N then BRErr else                        (* b[0] != '=' *)
         match indexByte b 45%N with
         | None => BRErr                                            (* missing the end position *)
         | Some O =>                                                (* n == 0: suffix form *)
@@ -59,5 +60,5 @@ Definition ParseByteRange (byteRange : bytes) (contentLength : Z) : brres :=
                   end
             end
         end
-    | _ => BRErr                                                   (* missing byte range *)
+    | [] => BRErr                                                  (* missing byte range *)
     end.
